@@ -94,8 +94,8 @@ type C10Step struct {
 	Interim       int      `json:"interim_status,omitempty"`
 	Status        int      `json:"backend_status"`
 	Implicit      bool     `json:"implicit_write_header,omitempty"`
-	BackendSet    []string `json:"backend_set_cookie"`   // Set-Cookie values the scripted backend emitted
-	BackendSaw    []string `json:"backend_saw_cookie"`   // Cookie header lines the backend received
+	BackendSet    []string `json:"backend_set_cookie"`    // Set-Cookie values the scripted backend emitted
+	BackendSaw    []string `json:"backend_saw_cookie"`    // Cookie header lines the backend received
 	ClientSet     []string `json:"client_saw_set_cookie"` // Set-Cookie values in the response the client received
 	ClientStatus  int      `json:"client_status"`
 	ExpectOwn     []string `json:"expect_own,omitempty"`
@@ -136,7 +136,7 @@ type C10Result struct {
 	JarCookies int      `json:"jar_cookies"`     // cookies restored from jars and compared
 	Issued     int      `json:"session_cookies"` // session cookies issued and attribute-checked
 	AttrKinds  []string `json:"attr_kinds,omitempty"`
-	Follows    int      `json:"followups_at_head,omitempty"`       // same-session requests served at the moment a response head was published
+	Follows    int      `json:"followups_at_head,omitempty"`      // same-session requests served at the moment a response head was published
 	FollowsNew int      `json:"followups_fresh_cookie,omitempty"` // of those, expecting a cookie that very response head had set
 
 	Violations []C10Viol   `json:"violations,omitempty"`
@@ -186,6 +186,8 @@ func c10Main(specBytes []byte) {
 			var res C10Result
 			if c.Kind == "conc" {
 				res = c10RunConc(c)
+			} else if c.Kind == "served" {
+				res = c10RunServed(c)
 			} else {
 				res = c10RunSeq(c)
 			}
@@ -1474,7 +1476,7 @@ func c10RunConc(c C10Case) C10Result {
 		ops = 4
 	}
 	// every never-seen session ID is first used by all goroutines at once (a burst at a fixed op index)
-	waves := map[int]int{}  // op index -> session every goroutine uses at that index
+	waves := map[int]int{}   // op index -> session every goroutine uses at that index
 	firstAt := map[int]int{} // session -> op index of its burst
 	nFresh := nSess - nIssued
 	for j := 0; j < nFresh; j++ {
